@@ -97,14 +97,23 @@ def plan(tier, seed):
             K4="12^4 over a 12-combination sub-alphabet (every lane count), gaps{1,2}, orders asc/desc",
         )
     shards += [("long", g, inter) for g in (1, 2, 100) for inter in ("none", "between", "inside")]
-    bounds["long"] = "sections of 128, 256 and 640 ticks walking through all 32 combinations x 4 flag sets"
+    bounds["long"] = "sections of 128, 256 and 640 ticks walking through all 32 combinations x 4 flag sets, under 4 tempo / resolution environments and tick offsets up to 2^63"
     return dict(shards=shards, bounds=bounds, budget_s=900 if tier == "thorough" else 240)
 
 
-def check(ctx, ticks, combos, flags, order, inter):
-    groups = [note_lines(t, c, f, 0, order) for t, c, f in zip(ticks, combos, flags)]
+# environments the statement does not mention, so the result must not depend on them
+ENVS = (
+    ("default", dict()),
+    ("sub-microsecond ticks", dict(res=960, sync=["0 = TS 4", "0 = B 1000000000", "300 = B 2000000000"])),
+    ("slow, resolution 1", dict(res=1, sync=["0 = TS 4", "0 = B 1000"])),
+    ("many tempo changes", dict(res=192, sync=["0 = TS 4"] + ["%d = B %d" % (7 * i, 60000 + 977 * i) for i in range(40)])),
+)
+
+
+def check(ctx, ticks, combos, flags, order, inter, env=0, sustain=0):
+    groups = [note_lines(t, c, f, sustain, order) for t, c, f in zip(ticks, combos, flags)]
     body = render(ticks, groups, inter)
-    text = mk(tracks={"ExpertSingle": body})
+    text = mk(tracks={"ExpertSingle": body}, **ENVS[env][1])
     expected = [[t, lanes_vector(c)] for t, c in zip(ticks, combos)]
     got = e1.run_probe(probe, text)
     ctx.case(text, nontrivial=sum(len(g) for g in groups) >= 2, sample=lambda: dict(body=body, expected=expected))
@@ -134,8 +143,12 @@ def run_shard(shard, ctx):
                         combos.append(COMBOS[(m + rep) % 32])
                         flags.append(f if (combos and len(combos) > 1) else ())
             flags[0] = ()
-            ticks = [gap * i for i in range(len(combos))]
-            check(ctx, ticks, combos, flags, order, inter)
+            for env in range(len(ENVS)):
+                for base in (0,) if env != 1 else (0, 2**31 - 7, 2**32 - 7, 2**63 - 10**6):
+                    if base and reps > 1:
+                        continue
+                    ticks = [base + gap * i for i in range(len(combos))]
+                    check(ctx, ticks, combos, flags, order, inter, env, sustain=(0 if env == 0 else 3))
         return
     if kind == "K2":
         a = COMBOS[shard[1]]
